@@ -185,7 +185,7 @@ def run(ctx, scale="full"):
         case = cases[ci]
         exp = _oracle(case, p)
         got = (p.get("res", "some"), p["out"])
-        payload = dict(op=p["op"], name=p.get("name"), key=hx(case["key"]), nonce=hx(p.get("nonce", case["nonce"])),
+        payload = dict(op=p["op"], name=p.get("name"), cipher_key=hx(case["key"]), nonce=hx(p.get("nonce", case["nonce"])),
                        aad=hx(p.get("aad", case["aad"])), pt=hx(case["pt"]), box=hx(p.get("box", b"")),
                        impl=[got[0], hx(got[1])], reference=[exp[0], hx(exp[1])])
         if exp != got:
